@@ -996,7 +996,8 @@ fn generate_enum_decl(id: &str, tags: &[ast::Tag], width: usize) -> proc_macro2:
             })
             .collect::<Vec<_>>();
         ranges.sort_unstable();
-        ranges.first().unwrap().0 == 0
+        !ranges.is_empty()
+            && ranges.first().unwrap().0 == 0
             && ranges.last().unwrap().1 == max
             && ranges.windows(2).all(|window| {
                 if let [left, right] = window { left.1 == right.0 - 1 } else { false }
@@ -1060,21 +1061,25 @@ fn generate_enum_decl(id: &str, tags: &[ast::Tag], width: usize) -> proc_macro2:
     // The default value is the first tag of the enum.
     // If the first tag identifies a range, then the first value
     // of the range is used.
-    let default_value = match &tags[0] {
-        ast::Tag::Value(ast::TagValue { id, .. }) => {
+    let default_value = match tags.iter().find(|tag| !matches!(tag, ast::Tag::Other(_))) {
+        Some(ast::Tag::Value(ast::TagValue { id, .. })) => {
             let id = format_tag_ident(id);
             quote! { #name::#id }
         }
-        ast::Tag::Range(ast::TagRange { tags, .. }) if !tags.is_empty() => {
+        Some(ast::Tag::Range(ast::TagRange { tags, .. })) if !tags.is_empty() => {
             let id = format_tag_ident(&tags[0].id);
             quote! { #name::#id }
         }
-        ast::Tag::Range(ast::TagRange { id, range, .. }) => {
+        Some(ast::Tag::Range(ast::TagRange { id, range, .. })) => {
             let id = format_tag_ident(id);
             let value = format_value(*range.start());
             quote! { #name::#id(Private(#value)) }
         }
-        ast::Tag::Other(_) => todo!(),
+        // The enum only declares a default tag.
+        _ => {
+            let id = format_tag_ident(&default_tag.as_ref().unwrap().id);
+            quote! { #name::#id(Private(0)) }
+        }
     };
 
     // Generate the cases for parsing the enum value from an integer.
